@@ -186,7 +186,7 @@ struct Counters {
 // Up to 8 nodes / 10 edges: the place where "fewest elements" and "cheapest"
 // disagree (a short route whose inner elements fail vs a longer one that passes).
 
-fn route_specs() -> Vec<(String, GraphSpec)> {
+fn route_specs(extra_edge_on_three_routes: bool) -> Vec<(String, GraphSpec)> {
     let mut out = vec![];
     for r in 2..=3usize {
         let mut lens = vec![1usize; r];
@@ -211,6 +211,9 @@ fn route_specs() -> Vec<(String, GraphSpec)> {
             out.push((name.clone(), GraphSpec::plain(nodes, &ops)));
             for a in 0..nodes {
                 for b in 0..nodes {
+                    if r == 3 && !extra_edge_on_three_routes {
+                        continue;
+                    }
                     let mut o = ops.clone();
                     o.push(Op::Edge(a, b));
                     out.push((format!("{name}+E{a}-{b}"), GraphSpec::plain(nodes, &o)));
@@ -539,9 +542,9 @@ pub fn run(args: &Args) -> i32 {
         engine::machinery_failure("graphs could not be built through the public API");
     }
     // (c) route graphs (both tiers)
-    let routes = route_specs();
+    let routes = route_specs(args.tier == engine::Tier::Thorough);
     let rc = RouteCounters::default();
-    let stop_limit = env("VERIF_C17_ROUTE_STOP", args.tier.pick(9, 12));
+    let stop_limit = env("VERIF_C17_ROUTE_STOP", args.tier.pick(9, 11));
     engine::par_for(routes.len(), args.seed, |_w, i| explore_routes(&report, &rc, &routes[i].0, &routes[i].1, stop_limit));
     {
         let spec = GraphSpec::plain(3, &[Op::Edge(0, 1), Op::Edge(1, 2), Op::Edge(0, 2)]);
@@ -557,7 +560,7 @@ pub fn run(args: &Args) -> i32 {
     report.set("route_graph_stop_assignments_up_to_inner_elements", json!(stop_limit));
     report.set("route_graph_cases_where_every_cheapest_path_has_more_elements_than_the_shortest_usable_path", json!(rc.cheapest_is_not_shortest.load(Ordering::SeqCst)));
     report.set("route_graph_cases_without_usable_path", json!(rc.no_usable_path.load(Ordering::SeqCst)));
-    report.set("route_graph_family", json!("origin and destination joined by 2..3 internally disjoint routes of 1..3 edges each (36 shapes, up to 8 nodes), alone and with one extra edge for every ordered pair of nodes incl. loops; endpoints pass; every pass/fail assignment of the inner elements, and every pass/fail/stop assignment when there are at most the stated number of inner elements"));
+    report.set("route_graph_family", json!("origin and destination joined by 2..3 internally disjoint routes of 1..3 edges each (36 shapes, up to 8 nodes), alone and with one extra edge for every ordered pair of nodes incl. loops (quick tier: the extra edge only on the 9 two-route shapes); endpoints pass; every pass/fail assignment of the inner elements, and every pass/fail/stop assignment when there are at most the stated number of inner elements"));
     report.set("distinct_nontrivial", json!(outcomes.len()));
     report.set("rule", json!("every multigraph as ordered edge sequence up to the stated number of edges, and every history with removals up to the stated length; for each: endpoint pairs = all ordered pairs of nodes incl. equal + an edge as origin/destination + missing ids; condition sets = 10 fixed forms, and (up to the stated size) every assignment of pass/fail/stop to the elements realised as `ids(P) and not_beyond ids(S)`; one evaluation = one path search on the real Db compared with brute force over all simple paths. distinct_nontrivial = distinct (graph structure, origin, destination) that have at least one path"));
     report.set("exhaustive", json!(true));
